@@ -829,6 +829,7 @@ func main() {
 	}
 	o := vh.ParseFlags()
 	rep := vh.NewReport("blockdb", "C26", o)
+	rep.CaseInputs = []interface{}{}
 	rep.Rule = "databases: key length 1-16 (oracle-only runs also 32/64/118), 0-12 (0-60) records over a colliding byte alphabet, " +
 		"1 in 8 keys written twice, payloads 0-24 bytes (sometimes 200-3000), 1 in 4 compressed, 1 in 3 with a dbHeader; lookups = every written key + 2-5 absent keys " +
 		"(below, above, neighbours, shorter, longer, random); 4-8 crash cuts of the two files (no header, torn last record, torn header, both); " +
